@@ -3,6 +3,7 @@ import json
 import os
 import random
 import re
+import time
 from concurrent.futures import ThreadPoolExecutor
 
 from vlib import core
@@ -20,6 +21,8 @@ def gen_cfg(path, prelude, depth, maxnodes, mode, pinned=False, inv=None, nc=2, 
         if mode == "bfs":
             f.write("SPECIFICATION HSpec\nINVARIANTS HTypeOK HAcyclic FileCurrent ClassTotal ArtDefined FrameLaw EmitLeafH\n"
                     "PROPERTY RefinesGraphEdit\nVIEW ViewH\n")
+        elif mode == "sandwich":
+            f.write("SPECIFICATION SandwichSpec\nINVARIANTS HTypeOK HAcyclic FileCurrent EmitSandwich\nVIEW ViewSandwich\n")
         elif mode == "sim":
             f.write("SPECIFICATION SimSpec\nINVARIANTS HTypeOK HAcyclic FileCurrent EmitLeafH\n")
         elif mode == "design":
@@ -51,6 +54,13 @@ def uniq(values, key):
 # --------------------------------------------------------------------------
 # execution on the real handlers (parallel chunks) and judgement
 # --------------------------------------------------------------------------
+
+def share_preludes(hs, plen):
+    """All histories of one BFS share their first plen steps: only the first logs them, the others skip to a base line."""
+    for h in hs[1:]:
+        h["skip"] = plen
+    return hs
+
 
 def execute(ctx, vh, hists, name):
     """Run request histories through vh xh-exec in parallel chunks; returns raw trace lines (history numbers global)."""
@@ -112,15 +122,34 @@ def report(ctx, hists, findings, seen_sigs):
                 p, r["m"], r["path"], r["a"], r["b"], r["c"], v["class"], v["why"],
                 "PANIC" if ln["st"] == -1 else ln["st"], ln["rk"], (" [" + ln["note"][:120] + "]") if ln["note"] else "",
                 h.get("tag"), ln["i"]),
-                {"family": "xhttp", "history": {"steps": h["steps"][:ln["i"] + 1], "tag": h.get("tag")}})
+                {"family": "xhttp", "history": {"steps": h["steps"][:ln["i"] + 1], "tag": h.get("tag"), "skip": h.get("skip", 0)}})
 
 
 # --------------------------------------------------------------------------
 # concurrent mode
 # --------------------------------------------------------------------------
 
+def _norm_frame(fr):
+    """github.com/EliCDavis/polyform/generator/graph.(*Instance).CreateNode() -> generator/graph.Instance.CreateNode"""
+    fr = fr.strip()
+    if fr.endswith("()"):
+        fr = fr[:-2]
+    out, depth = [], 0
+    for ch in fr:           # drop generic instantiations [...]
+        if ch == "[":
+            depth += 1
+        elif ch == "]":
+            depth -= 1
+        elif depth == 0:
+            out.append(ch)
+    fr = "".join(out).replace("(*", "").replace(")", "")
+    fr = re.sub(r"\.func\d+(\.\d+)*$", "", fr)
+    return fr.split("polyform/")[-1]
+
+
 def race_reports(prefix):
-    """Go race detector logs -> [(signature, text)] for races with a frame inside polyform."""
+    """Go race detector logs -> [(signature, text)] for races with a frame inside polyform; the signature names the
+    innermost polyform function of each of the two conflicting accesses."""
     out = []
     d = os.path.dirname(prefix)
     for f in sorted(os.listdir(d)):
@@ -128,17 +157,15 @@ def race_reports(prefix):
             continue
         txt = open(os.path.join(d, f), errors="replace").read()
         for blk in txt.split("WARNING: DATA RACE")[1:]:
-            frames = re.findall(r"^\s+(github\.com/EliCDavis/polyform/[^\s(]+)", blk, re.M)
-            if frames:
-                # the two accesses: first polyform frame of each stack
-                stacks = re.split(r"\n\n", blk)
-                firsts = []
-                for s in stacks[:2]:
-                    m = re.search(r"^\s+(github\.com/EliCDavis/polyform/[^\s(]+)", s, re.M)
-                    if m:
-                        firsts.append(m.group(1).split("polyform/")[-1])
-                sig = "X04.RaceFree/" + "+".join(sorted(set(firsts)) or [frames[0].split("polyform/")[-1]])
-                out.append((sig, blk[:2500]))
+            blk = blk.split("==================")[0]
+            stacks = re.split(r"\n\n", blk)
+            firsts = []
+            for s in stacks[:2]:
+                m = re.search(r"^\s+(github\.com/EliCDavis/polyform/.*\(\))\s*$", s, re.M)
+                if m:
+                    firsts.append(_norm_frame(m.group(1)))
+            if firsts:
+                out.append(("X04.RaceFree/" + "+".join(sorted(set(firsts))), blk[:3000]))
     return out
 
 
@@ -252,84 +279,128 @@ REQUIRED = [  # every class of request must have been exercised (vacuity guard);
     "invalid/create/body1", "invalid/create/body2", "invalid/create/body3", "invalid/create/body4",
     "invalid/connect/body2", "invalid/setval/body2", "invalid/setmeta/body1", "invalid/putgraph/body1",
     "invalid/putgraph/body5", "invalid/putgraph/body6", "invalid/putgraph/body7", "neutral/disconnect/", "neutral/delmeta/",
+    "neutral/getzip/", "neutral/getart/",
 ]
 
 
-def design_level(ctx, d, quick):
-    """Pinned handlers violate the design invariants (counterexamples), the contract machine does not."""
-    expect = [("HAcyclic", "PreludeSmall", 1), ("HTypeOK", "PreludeSmall", 1), ("FileCurrent", "PreludeSmall", 2)]
-    for inv, prelude, depth in expect:
-        gen_cfg(os.path.join(d, "P.cfg"), prelude, depth, 6, "design", pinned=True, inv=inv)
-        r = tlc(d, "HttpEdit", "P.cfg", workers=2, timeout=900)
-        ctx.extra["design_pinned_violates_" + inv] = (r.rc == 12 and r.violated == inv)
-        if not (r.rc == 12 and r.violated == inv):
-            raise core.Infra("HttpEdit with the pinned handlers does not violate %s: the model lost its teeth" % inv)
+def generate(ctx, quick, rnd):
+    """All TLC generator / design-level runs of the check, in parallel JVMs (each in its own scratch directory)."""
+    jobs = []   # (key, module, cfg args, tlc kwargs)
+    # design level: the pinned handlers violate the invariants (counterexamples), the contract machine does not
+    for inv, prelude, depth in [("HAcyclic", "PreludeSmall", 1), ("HTypeOK", "PreludeSmall", 1), ("FileCurrent", "PreludeSmall", 2)]:
+        jobs.append((("design", inv), "HttpEdit", dict(prelude=prelude, depth=depth, maxnodes=6, mode="design", pinned=True, inv=inv),
+                     dict(workers=1, timeout=900)))
+    # (1) BFS: every request of the pools at every graph reachable in Depth-1 steps from the preludes
+    plan = [("PreludeSmall", 1, 6, 0), ("PreludeMixed", 1, 9, 0), ("PreludeTwelve", 1, 6, 0), ("PreludeLoop", 1, 7, 0)]
+    plan += ([("PreludeSmall", 2, 6, 1500), ("PreludeEmpty", 2, 3, 1000)] if quick else
+             [("PreludeSmall", 2, 6, 0), ("PreludeLoop", 2, 7, 6000), ("PreludeEmpty", 2, 3, 0), ("PreludeMixed", 2, 9, 4000),
+              ("PreludeEmpty", 3, 3, 4000)])
+    for prelude, depth, maxn, cap in plan:
+        jobs.append((("bfs", prelude, depth, cap), "HttpEdit", dict(prelude=prelude, depth=depth, maxnodes=maxn, mode="bfs"),
+                     dict(workers=1, timeout=3000, heap="6g")))
+    # (1b) evaluate - edit - evaluate around every valid edit (stale caches behind the API)
+    for prelude, maxn in [("PreludeSmall", 6), ("PreludeLoop", 7)] + ([] if quick else [("PreludeMixed", 9), ("PreludeTwelve", 6)]):
+        jobs.append((("sandwich", prelude), "HttpEdit", dict(prelude=prelude, depth=3, maxnodes=maxn, mode="sandwich"),
+                     dict(workers=1, timeout=3000)))
+    # (2) simulation: long walks mixing valid edits, invalid and malformed requests, reads, whole-graph posts
+    splan = ([("PreludeSmall", 8, 40, 5), ("PreludeLoop", 8, 40, 5)] if quick else
+             [("PreludeSmall", 10, 50, 12), ("PreludeMixed", 11, 50, 10), ("PreludeLoop", 10, 50, 12), ("PreludeTwelve", 8, 50, 12),
+              ("PreludeSmall", 12, 60, 12), ("PreludeEmpty", 8, 60, 12)])
+    for k, (prelude, maxn, depth, num) in enumerate(splan):
+        jobs.append((("sim", prelude, k), "HttpEdit", dict(prelude=prelude, depth=depth, maxnodes=maxn, mode="sim"),
+                     dict(workers=1, timeout=3000, simulate="num=%d" % num, depth=100, seed=ctx.seed * 100 + k)))
+    # (4) concurrent cases
+    cplan = ([("PreludeSmall", 2, 2, 14), ("PreludeMixed", 3, 1, 10), ("PreludeLoop", 2, 2, 10)] if quick else
+             [("PreludeSmall", 2, 2, 150), ("PreludeMixed", 3, 1, 100), ("PreludeMixed", 2, 2, 100), ("PreludeLoop", 2, 2, 100),
+              ("PreludeSmall", 3, 2, 60), ("PreludeTwelve", 2, 2, 40)])
+    for k, (prelude, nc, per, num) in enumerate(cplan):
+        jobs.append((("conc", prelude, nc, per, k), "HttpConc", dict(prelude=prelude, depth=0, maxnodes=12, mode="conc", nc=nc, per=per),
+                     dict(workers=1, timeout=3000, simulate="num=%d" % num, depth=60, seed=ctx.seed * 100 + k)))
+
+    def one(job):
+        key, module, cfg, kw = job
+        d = ctx.scratch("gen-" + "-".join(str(x) for x in key))
+        gen_cfg(os.path.join(d, "X.cfg"), cfg["prelude"], cfg["depth"], cfg["maxnodes"], cfg["mode"], pinned=cfg.get("pinned", False),
+                inv=cfg.get("inv"), nc=cfg.get("nc", 2), per=cfg.get("per", 2))
+        return key, tlc(d, module, "X.cfg", **kw)
+
+    with ThreadPoolExecutor(max_workers=max(2, core.NCPU)) as ex:
+        results = list(ex.map(one, jobs))
+    hists, sims, cases = [], [], []
+    for key, r in results:
+        if key[0] == "design":
+            ok = r.rc == 12 and r.violated == key[1]
+            ctx.extra["design_pinned_violates_" + key[1]] = ok
+            if not ok:
+                raise core.Infra("HttpEdit with the pinned handlers does not violate %s: the model lost its teeth" % key[1])
+            continue
+        if r.rc != 0:
+            raise core.Infra("%s violates its own invariant/property %s" % (key, r.violated))
+        if key[0] == "bfs":
+            _, prelude, depth, cap = key
+            ctx.add_tlc(r)
+            hs = uniq(r.values, "steps")
+            hs.sort(key=lambda h: json.dumps(h, sort_keys=True))
+            ctx.extra["bfs_%s_d%d_generated" % (prelude, depth)] = len(hs)
+            if cap and len(hs) > cap:
+                rnd.shuffle(hs)
+                hs = hs[:cap]
+            for h in hs:
+                h["tag"] = "bfs:%s:%d" % (prelude, depth)
+            ctx.extra["bfs_%s_d%d" % (prelude, depth)] = len(hs)
+            hists += share_preludes(hs, len(hs[0]["steps"]) - depth)
+        elif key[0] == "sandwich":
+            ctx.add_tlc(r)
+            hs = uniq(r.values, "steps")
+            hs.sort(key=lambda h: json.dumps(h, sort_keys=True))
+            for h in hs:
+                h["tag"] = "sandwich:" + key[1]
+            ctx.extra["sandwich_" + key[1]] = len(hs)
+            hists += share_preludes(hs, len(hs[0]["steps"]) - 3)
+        elif key[0] == "sim":
+            hs = uniq(r.values, "steps")
+            for h in hs:
+                h["tag"] = "sim:" + key[1]
+            sims += hs
+        else:
+            _, prelude, nc, per, _k = key
+            cs = uniq(r.values, "progs")
+            for c in cs:
+                c["tag"] = "conc:%s:%dx%d" % (prelude, nc, per)
+            cases += cs
+    ctx.extra["sim_histories"] = len(sims)
+    ctx.transitions += sum(len(h["steps"]) for h in sims)
+    return hists, sims, cases
 
 
 def run(ctx):
     quick = ctx.tier == "quick"
     rnd = random.Random(ctx.seed)
+    t0 = time.time()
+    phases = {}
     vh = core.build_vh()
     vhr = core.build_vh(race=True)
-    d = ctx.scratch("gen")
-    design_level(ctx, d, quick)
-    hists = []
-    # (1) BFS: every request of the pools at every graph reachable in Depth-1 valid steps from the preludes
-    plan = [("PreludeSmall", 1, 6), ("PreludeMixed", 1, 9), ("PreludeTwelve", 1, 6), ("PreludeLoop", 1, 6)]
-    deep = ([("PreludeSmall", 2, 6, 350), ("PreludeEmpty", 2, 3, 350)] if quick else
-            [("PreludeSmall", 2, 6, 0), ("PreludeLoop", 2, 6, 0), ("PreludeEmpty", 2, 3, 0), ("PreludeMixed", 2, 9, 6000), ("PreludeEmpty", 3, 3, 6000)])
-    for prelude, depth, maxn in plan:
-        gen_cfg(os.path.join(d, "G.cfg"), prelude, depth, maxn, "bfs")
-        r = tlc(d, "HttpEdit", "G.cfg", workers=core.NCPU, timeout=2400, heap="8g")
-        if r.rc != 0:
-            raise core.Infra("HttpEdit violates its own invariant/property %s" % r.violated)
-        ctx.add_tlc(r)
-        hs = uniq(r.values, "steps")
-        for h in hs:
-            h["tag"] = "bfs:%s:%d" % (prelude, depth)
-        ctx.extra["bfs_%s_d%d" % (prelude, depth)] = len(hs)
-        hists += hs
-    for prelude, depth, maxn, cap in deep:
-        gen_cfg(os.path.join(d, "G.cfg"), prelude, depth, maxn, "bfs")
-        r = tlc(d, "HttpEdit", "G.cfg", workers=core.NCPU, timeout=3000, heap="8g")
-        if r.rc != 0:
-            raise core.Infra("HttpEdit violates its own invariant/property %s" % r.violated)
-        ctx.add_tlc(r)
-        hs = uniq(r.values, "steps")
-        hs.sort(key=lambda h: json.dumps(h, sort_keys=True))
-        ctx.extra["bfs_%s_d%d_generated" % (prelude, depth)] = len(hs)
-        if cap and len(hs) > cap:
-            rnd.shuffle(hs)
-            hs = hs[:cap]
-        for h in hs:
-            h["tag"] = "bfs:%s:%d" % (prelude, depth)
-        ctx.extra["bfs_%s_d%d" % (prelude, depth)] = len(hs)
-        hists += hs
-    # (2) simulation: long walks mixing valid edits, invalid and malformed requests, reads, whole-graph posts
-    sims = []
-    for k, (prelude, maxn) in enumerate([("PreludeSmall", 10), ("PreludeMixed", 12)]):
-        gen_cfg(os.path.join(d, "S.cfg"), prelude, 40 if quick else 60, maxn, "sim")
-        r = tlc(d, "HttpEdit", "S.cfg", workers=1, timeout=3000, simulate="num=%d" % (5 if quick else 60),
-                depth=100, seed=ctx.seed * 10 + k)
-        if r.rc != 0:
-            raise core.Infra("HttpEdit violates its own invariant %s in simulation" % r.violated)
-        hs = uniq(r.values, "steps")
-        for h in hs:
-            h["tag"] = "sim:" + prelude
-        sims += hs
-    ctx.extra["sim_histories"] = len(sims)
-    ctx.transitions += sum(len(h["steps"]) for h in sims)
+    phases["build"] = round(time.time() - t0, 1)
+    t0 = time.time()
+    hists, sims, cases = generate(ctx, quick, rnd)
     hists += sims
     # (3) seeded histories of the C12 generator (larger graphs), swap = GET /graph + POST /graph
+    d = ctx.scratch("gen")
     rp = os.path.join(d, "r.ndjson")
     core.run_vh(vh, ["ge-random", "-out", rp, "-seed", str(ctx.seed), "-n", str(30 if quick else 300), "-steps", "80"])
     seeded = [lift(h) for h in core.read_ndjson(rp)]
     ctx.extra["seeded_histories"] = len(seeded)
     hists += seeded
+    phases["generate"] = round(time.time() - t0, 1)
+    t0 = time.time()
     raw = execute(ctx, vh, hists, "exec")
     stats, seen = {}, {}
+    phases["execute"] = round(time.time() - t0, 1)
+    t0 = time.time()
     findings = judge(ctx, raw, "judge", stats)
     report(ctx, hists, findings, seen)
+    phases["judge"] = round(time.time() - t0, 1)
+    t0 = time.time()
     ctx.traces += len(hists)
     ctx.extra["request_lines_judged"] = sum(stats.values())
     ctx.extra["requests_by_class"] = {c: sum(n for k, n in stats.items() if k.startswith(c + "/")) for c in ("valid", "invalid", "neutral")}
@@ -339,19 +410,6 @@ def run(ctx):
         raise core.Infra("request classes never exercised (vacuous): %s" % missing)
     ctx.extra["rejections_by_signature"] = dict(sorted(seen.items()))
     # (4) concurrent mode
-    cases = []
-    for k, (prelude, nc, per, num) in enumerate([("PreludeSmall", 2, 2, 14), ("PreludeMixed", 3, 1, 10), ("PreludeMixed", 2, 2, 10)]
-                                                 if quick else
-                                                 [("PreludeSmall", 2, 2, 150), ("PreludeMixed", 3, 1, 100), ("PreludeMixed", 2, 2, 100),
-                                                  ("PreludeSmall", 3, 2, 60), ("PreludeTwelve", 2, 2, 40)]):
-        gen_cfg(os.path.join(d, "C.cfg"), prelude, 0, 12, "conc", nc=nc, per=per)
-        r = tlc(d, "HttpConc", "C.cfg", workers=1, timeout=3000, simulate="num=%d" % num, depth=60, seed=ctx.seed * 10 + k)
-        if r.rc != 0:
-            raise core.Infra("HttpConc violates its own invariant %s" % r.violated)
-        cs = uniq(r.values, "progs")
-        for c in cs:
-            c["tag"] = "conc:%s:%dx%d" % (prelude, nc, per)
-        cases += cs
     ctx.extra["concurrent_cases"] = len(cases)
     seenc = {}
     cr, bad, skipped = run_conc(ctx, vh, cases, "conc", reps=2 if quick else 4)
@@ -371,6 +429,8 @@ def run(ctx):
     ctx.extra["concurrent_rejections_by_signature"] = dict(sorted(seenc.items()))
     ctx.extra["race_reports_in_polyform"] = len(races)
     ctx.extra["race_signatures"] = dict(sorted(rs.items()))
+    phases["concurrent"] = round(time.time() - t0, 1)
+    ctx.extra["phase_wall_s"] = phases
     if ctx.tier == "thorough":
         selftest(ctx, vh, hists, cases)
     ctx.nontrivial = len({json.dumps(h["steps"], sort_keys=True) for h in hists if len(h["steps"]) >= 2}) + len(cases)
